@@ -1,6 +1,7 @@
 package checks
 
 import (
+	"bytes"
 	"context"
 	"encoding/json"
 	"fmt"
@@ -24,7 +25,7 @@ func init() {
 	Registry["C12"] = &Check{
 		Spec: func(tier string) evid.Spec {
 			return evid.Spec{ID: "C12", Level: "exploration", Exhaustive: true,
-				Rule: "plane 1 (direct call of the log-backed accounter with a recording sink and Response): every flag octet x seq{1,3,5} x enum profiles; plane 1b: every truncation and every raised length octet (+1,+2,+10,+200) of 8 well-formed requests (0..3 arguments) - bodies whose announced field lengths exceed the octets that follow must be answered ERROR with no sink record; plane 2: every 4-tuple of content tokens " +
+				Rule: "plane 1 (direct call of the log-backed accounter with a recording sink and Response): every flag octet x seq{1,3,5} x enum profiles; plane 1b: every truncation and every raised length octet (+1,+2,+10,+200) of 8 well-formed requests (0..3 arguments) - bodies whose announced field lengths exceed the octets that follow must be answered ERROR with no sink record; plane 1c: 60 and 255 arguments of 255 octets of 'a', '<' and 0x01 (records far beyond 64 KiB once encoded); plane 2: every 4-tuple of content tokens " +
 					"{plain,%,%s%d,100%,%!v(,\",\\,\\n,\\x00,\\x7f,'a b',<&>,255x%, literal \\u003c / \\u0026\\u003e / \\\\n\\\" / \\u00e9 / &lt;} in user/port/rem_addr/argument, argument counts {0,1,2,255}; plane 3 (full reference server over the scripted network): " +
 					"all arrival orders of length <= 3 over {start,stop,watchdog@1,watchdog-update@3,bad-flags,undecodable} x {fresh session id, the previous event's session id with the next client sequence number} x users {with accounter, via group, unknown, without accounter}, " +
 					"checking that the sink call precedes the reply's write on the global event clock; plane 5: the sink hangs in its first write for three seconds of real time while two connections send records - no SUCCESS may be on the wire for a record the sink has not been handed, and after the sink returns both are acknowledged with exactly one record each; plane 4 (engine E2): two connections sending accounting records concurrently under the controlled scheduler with statement-level points in the accounter, every schedule with <= 1 (quick) / 2 (thorough) deviations. Oracle: a SUCCESS reply implies exactly one sink call whose rendered line (format and arguments as log.Logger would print them) " +
@@ -268,6 +269,24 @@ func c12Run(c *Ctx) {
 					x[off] += byte(d)
 					c12Raw(c, h, sink, x, 1+2*(ci%2))
 				}
+			}
+		}
+	}
+	// plane 1c: the largest records a request can produce (255 arguments of 255 octets, plain and of characters a JSON
+	// encoder expands six-fold): still one record, still everything in it
+	job++
+	if c.Mine(job) {
+		for _, ch := range []byte{'a', '<', 0x01} {
+			for _, cnt := range []int{60, 255} {
+				m := ref.NewMsg()
+				m.N["flags"], m.N["authen_method"], m.N["priv_lvl"], m.N["authen_type"], m.N["authen_service"] = 2, 6, 1, 1, 1
+				m.S["user"], m.S["port"], m.S["rem_addr"] = []byte("acct"), []byte("tty1"), []byte("10.9.9.9")
+				for i := 0; i < cnt; i++ {
+					a := bytes.Repeat([]byte{ch}, 255)
+					a[0], a[1] = byte('a'+i%26), '='
+					m.Args = append(m.Args, a)
+				}
+				c12Direct(c, h, sink, m, 1)
 			}
 		}
 	}
